@@ -59,6 +59,34 @@ Theorem C07_restrict_is_the_subspace : forall c M v, span (restrict c M) v <-> (
 Proof. exact restrict_span. Qed.
 Print Assumptions C07_restrict_is_the_subspace.
 
+(* ---- A1'. what the relation sweep of the specification computes (semantic reading of init_rel / step_rel) ---- *)
+(* start: (combinations of the (c, c, bd c), c a k-cell of K_b, whose boundary part vanishes, i.e. pairs (z, z) with z a
+   k-cycle of K_b) + (bd t, 0) for the (k+1)-cells t of K_b *)
+Theorem C07_sweep_start : forall s k b v,
+  span (init_rel s k b) v <->
+  exists z, span (init_gens s k b) z /\ (forall u, (u < length s)%nat -> get z (2 * length s + u)%nat = false) /\
+            span (init_bnds s k b) (vxor v z).
+Proof. exact init_rel_spec. Qed.
+Print Assumptions C07_sweep_start.
+
+(* removal of a k-cell u: exactly the pairs whose y-part does not use u survive *)
+Theorem C07_sweep_removal : forall s k R u v, dim_of s u = k ->
+  (span (step_rel s k R (NRem u)) v <-> span R v /\ get v (length s + u)%nat = false).
+Proof. exact step_rel_removal. Qed.
+Print Assumptions C07_sweep_removal.
+
+(* insertion of a (k+1)-cell: the pair (0, boundary) joins the relation *)
+Theorem C07_sweep_insertion : forall s k R bd v,
+  (span (step_rel s k R (NIns (k + 1) bd)) v <-> span R v \/ span R (vxor v (of_idx (shift (length s) bd)))).
+Proof. exact step_rel_insertion. Qed.
+Print Assumptions C07_sweep_insertion.
+
+(* identity arrows and cells of other dimensions leave it alone *)
+Theorem C07_sweep_other_arrows : forall s k R o,
+  match o with NIns d _ => d <> k + 1 | NRem u => dim_of s u <> k | NId => True end -> step_rel s k R o = R.
+Proof. exact step_rel_other. Qed.
+Print Assumptions C07_sweep_other_arrows.
+
 (* ---- A3. bars alive at arrow i, dimension k  =  r_k(i,i) (inclusion-exclusion telescopes) ---- *)
 Theorem C07_alive_count_is_rank_at_i : forall s k i, (i < length s)%nat ->
   (forall b e, (b <= e < length s)%nat -> 0 <= mult (rfun (length s) (rtab s k)) (Z.of_nat b) (Z.of_nat e)) ->
